@@ -12,8 +12,8 @@ import (
 
 func init() {
 	Register(&Rule{ID: "R-PAR-1", Props: []string{"C13", "C12", "C03", "C04", "C17", "C15", "C02", "C05", "C19"}, Floor: 25,
-		Doc:      "lockset consistency: in every concurrent region of lib/query (operands of `go`, callbacks handed to the task runners — a function with a go statement whose goroutine calls one of the function's func parameters, received as an argument, captured, or read from a field of a struct the function built and gave to the goroutine as an argument, receiver or captured variable) each write to memory reachable from a shared root is index-partitioned by the task index, or every conflicting access in a concurrently running region holds a common mutex; sync/atomic/channel/sync.Pool operations are exempt",
-		Controls: []string{"CtlSharedCounterRace", "ctlBox).set", "CtlCapturedStructRunnerCallbackRace"},
+		Doc:      "lockset consistency: in every concurrent region of lib/query (operands of `go`, callbacks handed to the task runners — a function with a go statement whose goroutine calls one of the function's func parameters, received as an argument, captured, or read from a field of a struct the function built and gave to the goroutine as an argument, receiver or captured variable) each write to memory reachable from a shared root is index-partitioned by the task index — the slot index is a one-to-one image of it: the index itself, ±it plus a task-independent offset, a counter started at it, idx*k or idx<<c, idx*k+j with 0 ≤ j < k shown; an index that reaches the slot through >>, /, %, &, |, ^, &^, *0, min/max, a narrowing conversion or the difference of two task-dependent values sends two tasks to one slot and does not partition (par_inj.go) —, or every conflicting access in a concurrently running region holds a common mutex; sync/atomic/channel/sync.Pool operations are exempt",
+		Controls: []string{"CtlSharedCounterRace", "ctlBox).set", "CtlCapturedStructRunnerCallbackRace", "CtlInjBitSetWord", "CtlInjModuloScratch", "ctlInjStoreAt", "CtlInjFlatRowOverrun", "CtlInjOffsetInShare"},
 		Run:      rulePar1})
 	Register(&Rule{ID: "R-PAR-3", Props: []string{"C12"}, Floor: 25,
 		Doc:      "no order-accumulating effect in a multi-instance region: an append to a shared slice (even under a mutex) records the order in which goroutines happened to arrive, so the result depends on the schedule",
@@ -74,8 +74,8 @@ func rulePar1(c *Ctx) {
 					if cf.a.write {
 						akind = "write"
 					}
-					c.Bad(key, c.Pos(cf.w.in), fmt.Sprintf("unsynchronised conflicting accesses: %s (%s) at %s [locks: %s] in %s vs %s (%s) at %s [locks: %s] in %s — the location is not index-partitioned and no common mutex is held: data race",
-						cf.w.kind, "write", c.Pos(cf.w.in), lockList(cf.w.locks), c.P.Name(cf.w.fn), cf.a.kind, akind, c.Pos(cf.a.in), lockList(cf.a.locks), other))
+					c.Bad(key, c.Pos(cf.w.in), fmt.Sprintf("unsynchronised conflicting accesses: %s (%s) at %s [locks: %s] in %s vs %s (%s) at %s [locks: %s] in %s — %s and no common mutex is held: data race",
+						cf.w.kind, "write", c.Pos(cf.w.in), lockList(cf.w.locks), c.P.Name(cf.w.fn), cf.a.kind, akind, c.Pos(cf.a.in), lockList(cf.a.locks), other, notPartitionedWhy(cf.w.path)))
 					continue
 				}
 				why := "every conflicting access holds a common mutex"
@@ -94,6 +94,14 @@ func rulePar1(c *Ctx) {
 			}
 		}
 	}
+}
+
+// notPartitionedWhy words the reason a write path does not separate the tasks.
+func notPartitionedWhy(path string) string {
+	if strings.Contains(path, "[~]") {
+		return "the slot index depends on the task index only through an operation that maps different task indices to one slot (shift, division, modulo, mask, difference of two task values, unbounded offset to idx*k …), so the location is not index-partitioned: tasks whose indices fall into one slot write the same memory"
+	}
+	return "the location is not index-partitioned"
 }
 
 func lockList(l []string) string {
